@@ -26,3 +26,15 @@ prop("C20",
               "ed25519.GenerateKey = io.ReadFull(rng, 32 bytes) as in Go 1.23's crypto/ed25519"],
      assumptions=["verify (pub s) m (sign s m) = true", "length s = 32 -> length (pub s) = 32",
                   "a random source is modelled as the finite byte string it delivers before failing"])
+
+prop("C06",
+     coq_deps=["Base.v", "Term.v", "Expr.v", "Corr.v", "ExprProofs.v", "TableProofs.v", "Generated.v"],
+     theorems=["C06_total_no_panic", "C06_total", "C06_arith_exact", "C06_never_wrapped", "C06_ill_typed_is_error",
+               "C06_well_typed_iff", "C06_well_typed_result", "C06_result_type", "C06_unary_table", "C06_set_ops",
+               "C06_string_ops", "C06_postfix", "C06_ok_is_postfix", "C06_malformed_is_error",
+               "C06_every_operator_has_an_evaluator_arm"],
+     trusted=["Go's regexp is not modelled: Section variable rx (pattern, subject -> option bool); the theorems hold for every rx",
+              "the model evaluates resolved (S-level) values: string terms carry their contents; symbol-table interning of "
+              "concatenation results is covered by the correspondence (results compared after resolution)",
+              "integers are Z, dates N in the model; that operands are 64-bit is a property of their producers (decoder, parser)"],
+     assumptions=["every error other than DivZero/Overflow/Regex/UnknownVar is one class (IllTyped) in the model and in the comparison"])
